@@ -87,6 +87,8 @@ class World(object):
         self.ptyprocs = []
         self.children = []         # (proc, pty, slave) per spawned pty child
         self.short_i = 0
+        self.on_read = None        # optional callable(fd, data) after every CUT read
+        self.short_fd = None       # short writes apply to this descriptor only
 
     # ---------------------------------------------------------------- stats
     def fault(self, kind, n=1):
